@@ -177,9 +177,11 @@ type c19Step struct {
 	Cookie string `json:"cookie,omitempty"` // none | slot | forged
 	Slot   int    `json:"slot,omitempty"`
 	Bind   string `json:"bind,omitempty"` // sso: redirect | post
-	Ms     int64  `json:"ms,omitempty"`   // advance; -1: to the expiry of slot, -2: 1 ms before, -3: 1 ms after
-	Bad    bool   `json:"bad,omitempty"`  // put_service with a body that is not SP metadata
-	Omit   string `json:"omit,omitempty"` // put_user: attributes left out of the body ("groups" | "names" | "groups+names"): PUT replaces the record
+	Ms     int64  `json:"ms,omitempty"`   // advance; -1: to the expiry of slot, -2: 1 ms before, -3: 1 ms after; -6: to Lead ms before it
+	// advance with ms = -6: how long before (negative: after) the expiry of the slot's session the clock is set, if that is in the future
+	Lead int64  `json:"lead_ms,omitempty"`
+	Bad  bool   `json:"bad,omitempty"`  // put_service with a body that is not SP metadata
+	Omit string `json:"omit,omitempty"` // put_user: attributes left out of the body ("groups" | "names" | "groups+names"): PUT replaces the record
 	// put_user: the body's "name" field names this other user (the URL says whose record it is; the body cannot say otherwise)
 	BodyName string `json:"body_name,omitempty"`
 	// sso: the request names no assertion consumer endpoint (the IdP picks among the registered ones)
@@ -390,6 +392,61 @@ func genC19(g *Rng, tier string) *Plan {
 			c19Step{Op: "advance", Ms: Pick(g, int64(-2), -1, -3, -4, -5, 3_599_000, 3_601_000), Slot: -1},
 			Pick(g, c19Step{Op: "sso", SP: 0, Cookie: "slot", Slot: -1, Bind: "redirect"}, c19Step{Op: "shortcut", Sc: Pick(g, c19Scs...), Cookie: "slot", Slot: -1}))
 	}
+	// (the scenarios below were added later and draw after everything above, so that the plans of earlier versions keep their prefix)
+	if g.Bool(0.3) {
+		// targeted: a session that is in use at a drawn distance before its expiry (a second to nearly its whole life), and whose
+		// cookie comes back at a drawn distance after that expiry: the term of a session is the one it got at the login
+		u := Pick(g, c19Users...)
+		ver++
+		use := func() c19Step {
+			return Pick(g, c19Step{Op: "sso", SP: 0, Cookie: "slot", Slot: -1, Bind: "redirect"}, c19Step{Op: "sso", SP: 0, Cookie: "slot", Slot: -1, Bind: "post"},
+				c19Step{Op: "shortcut", Sc: "h0", Cookie: "slot", Slot: -1})
+		}
+		steps = append(steps, c19Step{Op: "seed_user", User: u, Pw: "set", Ver: ver}, c19Step{Op: "put_service", Svc: "s0", SP: 0},
+			c19Step{Op: "put_shortcut", Sc: "h0", SP: 0, Relay: Pick(g, "fixed", "")},
+			c19Step{Op: "login", User: u, Pw: "right"})
+		for k, nk := 0, 1+g.Intn(2); k < nk; k++ {
+			steps = append(steps, c19Step{Op: "advance", Ms: -6, Slot: -1, Lead: Pick(g, int64(1000), 60_000, 300_000, 600_000, 840_000, 1_200_000, 1_800_000, 2_700_000, 3_540_000)}, use())
+		}
+		if g.Bool(0.3) {
+			steps = append(steps, c19Step{Op: "get_session", Slot: -1})
+		}
+		steps = append(steps, c19Step{Op: "advance", Ms: -6, Slot: -1, Lead: -Pick(g, int64(1), 500, 1000, 60_000, 600_000, 1_800_000, 3_000_000)}, use())
+	}
+	if g.Bool(0.25) {
+		// targeted: the credentials a live session was opened with are replaced (through the API, by the operator, or by a PUT that
+		// keeps the hash) or the user is removed; then the session's cookie is used, the user logs in again, and a cookie is used again.
+		// The session is the stored snapshot of the login: it lives until it expires or is deleted - before and after any restart.
+		u := Pick(g, c19Users...)
+		ver += 2
+		opening := c19Step{Op: "login", User: u, Pw: "right"}
+		if g.Bool(0.3) {
+			opening = c19Step{Op: "sso", SP: 0, Cookie: "none", User: u, Pw: "right", Bind: "post"}
+		}
+		var change c19Step
+		switch g.PickW(4, 1, 2, 1) {
+		case 0:
+			change = c19Step{Op: "delete_user", User: u}
+		case 1:
+			change = c19Step{Op: "put_user", User: u, Pw: Pick(g, "set", "set", "empty"), Ver: ver}
+		case 2:
+			change = c19Step{Op: "seed_user", User: u, Pw: Pick(g, "set", "none"), Ver: ver}
+		default:
+			change = c19Step{Op: "put_user", User: u, Pw: "", Ver: ver}
+		}
+		use := func() c19Step {
+			return Pick(g, c19Step{Op: "sso", SP: 0, Cookie: "slot", Slot: -1, Bind: Pick(g, "redirect", "post")}, c19Step{Op: "shortcut", Sc: "h0", Cookie: "slot", Slot: -1})
+		}
+		scenario := []c19Step{{Op: "seed_user", User: u, Pw: "set", Ver: ver - 1}, {Op: "put_service", Svc: "s0", SP: 0},
+			{Op: "put_shortcut", Sc: "h0", SP: 0}, opening, change, use()}
+		if change.Op == "put_user" && change.Pw != "" {
+			// the API hashes at full cost, and every fork that starts before this step pays for it again (and once more for every later
+			// login against that hash): such a history consists of the scenario alone, and nobody logs in afterwards
+			steps = scenario
+		} else {
+			steps = append(append(steps, scenario...), c19Step{Op: "login", User: u, Pw: Pick(g, "right", "right", "wrong")}, use())
+		}
+	}
 	for _, s := range steps {
 		p.Steps = append(p.Steps, mustJSON(s))
 	}
@@ -419,6 +476,11 @@ type mSession struct {
 	Snap     c19Attrs
 	ExpireMs int64 // sim time of expiry (from the session object the server published)
 	Deleted  bool
+	// bookkeeping for the coverage probes only (the expectations never read these)
+	User      string // who logged in
+	HadPw     string // the password the login presented
+	Uses      int    // requests in which the cookie obtained an assertion
+	LastUseMs int64  // sim time of the last of them
 }
 type mShortcut struct {
 	SP    int
@@ -685,6 +747,7 @@ func (w *c19World) step(st c19Step, res *Result) (expected, observed c19Outcome,
 	wellFormed = true
 	var rep *reply
 	before := w.store.fired
+	hashesBefore := w.storedHashes()
 	switch st.Op {
 	case "restart":
 		if err := w.newServer(); err != nil {
@@ -696,7 +759,7 @@ func (w *c19World) step(st c19Step, res *Result) (expected, observed c19Outcome,
 		d := st.Ms
 		if d < 0 {
 			if i := w.slot(st.Slot); i >= 0 {
-				target := w.sessions[i].ExpireMs + map[int64]int64{-1: 0, -2: -1, -3: 1, -4: 500, -5: 999}[d]
+				target := w.sessions[i].ExpireMs + map[int64]int64{-1: 0, -2: -1, -3: 1, -4: 500, -5: 999, -6: -st.Lead}[d]
 				if target > w.nowMs {
 					w.nowMs = target
 				}
@@ -756,6 +819,9 @@ func (w *c19World) step(st c19Step, res *Result) (expected, observed c19Outcome,
 		prev := w.store.data[key]
 		rep = deliver(w.srv, "PUT", base+key, string(mustJSON(body)), "application/json", nil)
 		expected = c19Outcome{Class: "OK"}
+		if res != nil && w.store.fired != before && hashesBefore[key] != "" {
+			res.probe("c19-store-fault-while-rewriting-a-user-who-has-a-hash")
+		}
 		if st.Pw == "set100" && rep.Panic == nil && rep.Code >= 400 && w.store.fired == before && w.store.data[key] == prev {
 			// a password longer than the hash function reads may be refused; then nothing changed
 			expected = c19Outcome{Class: "ERROR"}
@@ -1064,8 +1130,12 @@ func (w *c19World) step(st c19Step, res *Result) (expected, observed c19Outcome,
 		return expected, c19Outcome{Class: "PANIC"}, dc, "", false, rep.Panic
 	}
 	observed, wellFormed = w.classify(st, rep)
+	w.noteCookieUse(st, observed, res)
 	// password-hash disclosure: every stored hash, raw and base64, must be absent from the reply
-	hashLeak = w.findHash(rep)
+	hashLeak = w.findHash(rep, hashesBefore)
+	if res != nil {
+		res.Extra["replies_searched_for_hashes_in_every_rendering"]++
+	}
 	// successful logins hand the browser a session cookie: record it (model: new session)
 	if observed.Class == "SESSION" || (observed.Class == "ASSERTION" && st.Op == "sso" && st.User != "") {
 		for _, c := range rep.Cookies {
@@ -1080,11 +1150,40 @@ func (w *c19World) step(st c19Step, res *Result) (expected, observed c19Outcome,
 					// the new session got the ID a client chose: whoever planted that cookie now holds the session
 					observed = c19Outcome{Class: "SESSION_ID_FROM_CLIENT", Detail: c.Value}
 				}
-				w.sessions = append(w.sessions, mSession{Cookie: c.Value, Snap: snap, ExpireMs: exp})
+				w.sessions = append(w.sessions, mSession{Cookie: c.Value, Snap: snap, ExpireMs: exp, User: st.User, HadPw: w.users[st.User].Pw})
 			}
 		}
 	}
 	return
+}
+
+// noteCookieUse counts, for the evidence, the situations around a session cookie that the targeted scenarios are there to reach.
+func (w *c19World) noteCookieUse(st c19Step, observed c19Outcome, res *Result) {
+	if (st.Op != "sso" && st.Op != "shortcut") || st.Cookie != "slot" || res == nil {
+		return
+	}
+	i := w.slot(st.Slot)
+	if i < 0 {
+		return
+	}
+	s := &w.sessions[i]
+	switch w.sessState(s) {
+	case 0:
+		if u, ok := w.users[s.User]; !ok || !u.HasPw || u.Pw != s.HadPw {
+			res.probe("c19-live-cookie-after-its-user-was-removed-or-given-another-password")
+		}
+		if observed.Class == "ASSERTION" {
+			s.Uses++
+			s.LastUseMs = w.nowMs
+		}
+	case 2:
+		if !s.Deleted && s.Uses > 0 {
+			res.probe("c19-expired-cookie-of-a-session-that-had-been-used")
+			if s.ExpireMs-s.LastUseMs <= 600_000 {
+				res.probe("c19-expired-cookie-of-a-session-last-used-within-10min-of-its-expiry")
+			}
+		}
+	}
 }
 
 // applied reports whether the mutation of key took effect (used when a store fault may have cut the request short).
@@ -1119,11 +1218,9 @@ func c19Reinflate(b64 string) string {
 	return base64.StdEncoding.EncodeToString(req.RequestBuffer)
 }
 
-func (w *c19World) findHash(rep *reply) string {
-	hay := rep.Body
-	for k, vs := range rep.Header {
-		hay += "\n" + k + ": " + strings.Join(vs, ",")
-	}
+// storedHashes reads, through the store's back door, the password hashes the store holds now (by user key).
+func (w *c19World) storedHashes() map[string]string {
+	out := map[string]string{}
 	for key, raw := range w.store.data {
 		if !strings.HasPrefix(key, "/users/") {
 			continue
@@ -1132,9 +1229,67 @@ func (w *c19World) findHash(rep *reply) string {
 		if json.Unmarshal([]byte(raw), &u) != nil || len(u.HashedPassword) == 0 {
 			continue
 		}
-		for _, needle := range []string{string(u.HashedPassword), base64.StdEncoding.EncodeToString(u.HashedPassword), base64.URLEncoding.EncodeToString(u.HashedPassword)} {
-			if strings.Contains(hay, needle) {
-				return key
+		out[key] = string(u.HashedPassword)
+	}
+	return out
+}
+
+type c19Rendering struct{ name, text string }
+
+var c19RenderingCache = map[string][]c19Rendering{}
+
+// c19HashRenderings lists the forms in which a reply could carry the bytes of a hash: as they are, escaped for a URL, base64,
+// and as a list of byte values (decimal, hexadecimal, octal or escapes, with the usual separators - what printing a byte slice
+// gives). Only the names of the renderings are ever reported, never their text.
+func c19HashRenderings(h string) []c19Rendering {
+	if r, ok := c19RenderingCache[h]; ok {
+		return r
+	}
+	b := []byte(h)
+	out := []c19Rendering{{"raw", h}, {"url-query-escaped", url.QueryEscape(h)}, {"url-path-escaped", url.PathEscape(h)},
+		{"base64", base64.StdEncoding.EncodeToString(b)}, {"base64url", base64.URLEncoding.EncodeToString(b)},
+		{"base64-unpadded", base64.RawStdEncoding.EncodeToString(b)}, {"base64url-unpadded", base64.RawURLEncoding.EncodeToString(b)}}
+	for _, verb := range []string{"%d", "%02x", "%02X", "0x%02x", "%#o", `\x%02x`, `\u%04x`} {
+		parts := make([]string, len(b))
+		for i, c := range b {
+			parts[i] = fmt.Sprintf(verb, c)
+		}
+		for _, sep := range []string{"", " ", ",", ", ", ":", ";", "\n"} {
+			if sep == "" && (verb == "%d" || verb == "%#o") {
+				continue // not a rendering: the byte boundaries are lost
+			}
+			out = append(out, c19Rendering{fmt.Sprintf("byte values printed with %s, joined by %q", verb, sep), strings.Join(parts, sep)})
+		}
+	}
+	if len(c19RenderingCache) >= 64 {
+		c19RenderingCache = map[string][]c19Rendering{} // hashes made through the API are new in every fork: keep the cache small
+	}
+	c19RenderingCache[h] = out
+	return out
+}
+
+// findHash looks in the reply (headers and body) for every password hash the store held before the request or holds after it,
+// in every rendering of c19HashRenderings. Returns the key of the user whose hash was found and the rendering's name.
+func (w *c19World) findHash(rep *reply, before map[string]string) string {
+	hay := rep.Body
+	hk := make([]string, 0, len(rep.Header))
+	for k := range rep.Header {
+		hk = append(hk, k)
+	}
+	sort.Strings(hk)
+	for _, k := range hk {
+		hay += "\n" + k + ": " + strings.Join(rep.Header[k], ",")
+	}
+	after := w.storedHashes()
+	for _, set := range []map[string]string{before, after} {
+		for _, key := range sortedKeys(set) {
+			for _, r := range c19HashRenderings(set[key]) {
+				if strings.Contains(hay, r.text) {
+					if r.name != "raw" {
+						return key + " (" + r.name + ")"
+					}
+					return key
+				}
 			}
 		}
 	}
@@ -1632,7 +1787,7 @@ func simplifyC19(p *Plan) []*Plan {
 func init() {
 	register(&Profile{
 		ID: "C19", Name: "idpserver", Level: "fault_enumeration",
-		Rule: "histories of 6-17 operations over {put/delete user (with/without/empty password), put/delete service (3 SP identities, 3 names, invalid body), put/delete shortcut, login (right/wrong/empty/other user's password), SSO (redirect/post, cookie of slot k / none / forged, or credentials), shortcut launch, delete session, advance clock (incl. to session expiry -1ms/0/+1ms), list/get calls, restart} are sampled from the seed; for EACH history the check runs (i) the fault-free history against the strict reference model, (ii) a server re-created over the store after EVERY position, compared step by step with the original's outcome classes, (iii) EVERY store call index x {not-found, I/O error before apply, I/O error after apply, process crash at that call, process crash right after the call applied} as a single injected fault (a crash abandons the request without a reply and a new server starts over what the store holds) against the relaxed model; evaluations = sampled histories (extra.restart_positions and extra.fault_placements count the enumerated forks); non-trivial = the reference run contains an authentication decision (assertion, session, login form or error); distinct = distinct abstract reference log; after a truthful store failure (I/O error before apply) a twin server restarted at that moment serves the rest of the history and must answer like the original; PUT /users may omit attributes; targeted tails: replace-record-then-login-then-SSO, and login / advance to session expiry -1ms..+999ms / use cookie; thorough tier: 2-4 random multi-fault forks per history; logins may present a planted or stale cookie (a session whose ID equals a value the client chose is a violation); passwords of exactly 72 and of 100 bytes with near-miss logins (password+tail, first 72 bytes+other tail); PUT /users bodies may name another user; targeted scenarios for each",
+		Rule: "histories of 6-17 operations over {put/delete user (with/without/empty password), put/delete service (3 SP identities, 3 names, invalid body), put/delete shortcut, login (right/wrong/empty/other user's password), SSO (redirect/post, cookie of slot k / none / forged, or credentials), shortcut launch, delete session, advance clock (incl. to session expiry -1ms/0/+1ms), list/get calls, restart} are sampled from the seed; for EACH history the check runs (i) the fault-free history against the strict reference model, (ii) a server re-created over the store after EVERY position, compared step by step with the original's outcome classes, (iii) EVERY store call index x {not-found, I/O error before apply, I/O error after apply, process crash at that call, process crash right after the call applied} as a single injected fault (a crash abandons the request without a reply and a new server starts over what the store holds) against the relaxed model; evaluations = sampled histories (extra.restart_positions and extra.fault_placements count the enumerated forks); non-trivial = the reference run contains an authentication decision (assertion, session, login form or error); distinct = distinct abstract reference log; after a truthful store failure (I/O error before apply) a twin server restarted at that moment serves the rest of the history and must answer like the original; PUT /users may omit attributes; targeted tails: replace-record-then-login-then-SSO, and login / advance to session expiry -1ms..+999ms / use cookie; thorough tier: 2-4 random multi-fault forks per history; logins may present a planted or stale cookie (a session whose ID equals a value the client chose is a violation); passwords of exactly 72 and of 100 bytes with near-miss logins (password+tail, first 72 bytes+other tail); PUT /users bodies may name another user; targeted scenarios for each; a session in use at a drawn distance (1 s ... 59 min) before its expiry whose cookie returns at a drawn distance (1 ms ... 50 min) after it; the credentials of a live session's user replaced (API, operator, PUT keeping the hash) or the user removed, then the cookie used (the API variant as a history of its own: it hashes at full cost); replies are searched for every hash the store held before or holds after the request, raw, URL-escaped, base64 (4 alphabets) and as lists of byte values (decimal, hex, octal, escapes x 7 separators)",
 		Gen:  genC19, Exec: execC19, Simplify: simplifyC19,
 		RunsQuick: 160, RunsThorough: 16000,
 		Assumptions: []string{"emitted assertions are decoded by the real SP the form addresses (request correlation disabled in that monitor)", "session expiry is read from the session object the server stores, not from a constant", "after an injected store error requests are checked for safety only (no unauthorised assertion/session, no hash disclosure, one well-formed reply)", "bcrypt, RSA padding randomness are not behind a seam and never enter the abstract log"},
